@@ -102,6 +102,9 @@ impl<Error: Send + 'static> DecodeScheduler<Error> {
 				Err(error) => {
 					self.error_producer.push(error).ok();
 					self.shared.encountered_error.store(true, Ordering::SeqCst);
+					// the sound stops as soon as the audio thread sees the flag;
+					// there is nothing left to decode
+					break;
 				}
 			}
 		});
@@ -110,6 +113,11 @@ impl<Error: Send + 'static> DecodeScheduler<Error> {
 	pub fn run(&mut self) -> Result<NextStep, Error> {
 		// if the sound was manually stopped, end the thread
 		if self.shared.state() == PlaybackState::Stopped {
+			return Ok(NextStep::End);
+		}
+		// if the sound no longer exists (it was rejected by a full track, or
+		// dropped along with its track or manager), end the thread
+		if self.frame_producer.is_abandoned() {
 			return Ok(NextStep::End);
 		}
 		// if the frame ringbuffer is full, sleep for a bit
